@@ -103,7 +103,7 @@ def vsig(v):
 def write_replays(prop, unknown, fingerprint, limit=12):
     out = []
     seen = {}
-    rdir = os.path.join(VERIF, 'replays', prop)
+    rdir = os.path.join(os.environ.get('VF_REPLAY_DIR') or os.path.join(VERIF, 'replays'), prop)
     os.makedirs(rdir, exist_ok=True)
     for v in unknown:
         s = vsig(v)
@@ -275,8 +275,11 @@ def main(argv=None):
           'level': getattr(mod, 'LEVEL', 'exploration'), 'coverage': cov,
           'assumptions': getattr(mod, 'ASSUMPTIONS', []), 'wall_s': round(time.time() - t0, 2),
           'violations': len(unknown)}
-    os.makedirs(os.path.join(VERIF, 'evidence'), exist_ok=True)
-    with open(os.path.join(VERIF, 'evidence', prop + '.json'), 'w') as f:
+    # (VF_EVIDENCE_DIR redirects the evidence of runs against scratch copies / seeded defects, so
+    # that the committed evidence always comes from /repo itself)
+    evdir = os.environ.get('VF_EVIDENCE_DIR') or os.path.join(VERIF, 'evidence')
+    os.makedirs(evdir, exist_ok=True)
+    with open(os.path.join(evdir, prop + '.json'), 'w') as f:
         json.dump(ev, f, indent=1, default=str)
     print(f"{prop} {tier} seed={seed}: verdict={verdict} cases={m['n_cases']} "
           f"nontrivial={len(m['nontrivial'])} monitors={sum(m['monitors'].values())} "
